@@ -246,6 +246,31 @@ func e2ePatch(c *e2eCtx) error {
 			}
 			c.patchRound(s, r, rounds+2, &patchDirective{dirs: all, deleteAll: true})
 		}
+		// configuration change between the commands (one project in four with several main packages):
+		// `mainEntries` is narrowed to one main package after track, then a patch round with an insert
+		// marker — the other main packages must lose their service-start call, the tables stay whole
+		if i%4 == 1 {
+			var mains []*proj.Pkg
+			for _, pk := range s.p.Pkgs {
+				if pk.IsMain {
+					mains = append(mains, pk)
+				}
+			}
+			if len(mains) >= 2 {
+				keep := mains[r.Intn(len(mains))]
+				s.cfg.MainEntries = []string{keep.Dir}
+				proj.WriteConfig(s.dir, s.cfg)
+				s.desc = cfgDesc(s.cfg)
+				c.count("directed:mainEntries-narrowed-before-patch")
+				all := map[string]bool{}
+				for _, pk := range mains {
+					for d := range s.closureDirs(pk) {
+						all[d] = true
+					}
+				}
+				c.patchRound(s, r, rounds+3, &patchDirective{dirs: all, inserts: 1 + r.Intn(2)})
+			}
+		}
 	})
 	return nil
 }
